@@ -86,6 +86,7 @@ def mergeAll (srcs : List (List Ent)) : List Ent := srcs.foldr merge2 []
 
 structure Tbl where
   ents : List Ent
+  id : Nat := 0     -- file id (identification only: no model function inspects it except lookups by the driver)
   deriving DecidableEq, Repr, Inhabited
 
 def Tbl.smallest (t : Tbl) : Option Ent := t.ents.head?
@@ -157,11 +158,11 @@ def Lsm.sources (s : Lsm) : List (List Ent) :=
 
 /-- `ensureRoomForWrite` rotation + `handleMemTableFlush`: the memtable becomes the last L0 table
     (nothing happens for an empty memtable). -/
-def Lsm.flush (s : Lsm) : Lsm :=
+def Lsm.flush (s : Lsm) (id : Nat := 0) : Lsm :=
   if s.mem.isEmpty then s else
   match s.levels with
   | [] => s
-  | l0 :: rest => { s with mem := [], levels := (l0 ++ [{ ents := s.mem }]) :: rest }
+  | l0 :: rest => { s with mem := [], levels := (l0 ++ [{ ents := s.mem, id := id }]) :: rest }
 
 /-! ## Compaction (`subcompact`, `compactBuildTables`, `runCompactDef`) -/
 
@@ -246,6 +247,11 @@ def splitSizes : List Nat → List Ent → Option (List Tbl)
     | some r => some ({ ents := es.take n } :: r)
     | none => none
 
+/-- attach the file ids the implementation gave to the new tables (identification only) -/
+def withIds : List Tbl → List Nat → List Tbl
+  | t :: ts, i :: is => { t with id := i } :: withIds ts is
+  | ts, _ => ts
+
 def removeIdx {α : Type} (l : List α) (idx : List Nat) : List α :=
   ((zipIdx l).filter (fun (i, _) => !idx.contains i)).map (·.2)
 
@@ -270,6 +276,7 @@ structure CompactDef where
   bot : List Nat        -- indices into `levels[nextLevel]`
   outSizes : List Nat   -- entry counts of the tables the implementation produced
   dropPrefixes : List Bytes
+  outIds : List Nat := []  -- their file ids (identification only)
 
 /-- the entries a compaction writes: merge (L0 tops newest first, then the bottom run), filter. -/
 def compactOutput (s : Lsm) (cd : CompactDef) (discardTs numKeep now : Nat) : List Ent × Bool :=
@@ -293,7 +300,8 @@ def Lsm.compact (s : Lsm) (cd : CompactDef) (discardTs numKeep now : Nat) : Opti
   let (out, _) := compactOutput s cd discardTs numKeep now
   match splitSizes cd.outSizes out with
   | none => none
-  | some newTables =>
+  | some newTables0 =>
+    let newTables := withIds newTables0 cd.outIds
     let thisT := s.levels.getD cd.thisLevel []
     let nextT := s.levels.getD cd.nextLevel []
     if cd.thisLevel == cd.nextLevel then
